@@ -320,12 +320,6 @@ fn rank_ch(s: usize) -> char {
     (b'1' + (s >> 3) as u8) as char
 }
 
-pub struct Spelling {
-    pub text: String,
-    /// "M" = must parse to the move, "?" = lenient / unspecified, "!" = must be rejected
-    pub tag: char,
-}
-
 /// Every admissible spelling of the legal move `m` (documented grammar), written independently of
 /// the crate: piece letter, none/file/rank/both disambiguation when it singles `m` out among the
 /// legal moves of that piece type to that destination (with that promotion), `x` iff capture
